@@ -668,7 +668,7 @@ pub fn history_preemptions(p: &Program, hist: &crate::accept::History) -> Option
         if s.th[t].pc != *i as usize {
             return None;
         }
-        if *r != Res::Skip && matches!(p.threads[t][*i as usize].k, K::Yield | K::Await { .. } | K::AwaitSpun { .. } | K::NWait { .. } | K::NWaitUntil { .. }) {
+        if *r != Res::Skip && matches!(p.threads[t][*i as usize].k, K::Yield | K::Await { .. } | K::AwaitSpun { .. } | K::Await2 { .. } | K::NWait { .. } | K::NWaitUntil { .. }) {
             yield_pending[t] = true;
         }
         let next = s.succ(p, t, mode).into_iter().find(|(_, fin)| *fin == Some(*r));
@@ -687,7 +687,7 @@ pub fn history_preemptions(p: &Program, hist: &crate::accept::History) -> Option
                 let inside = more
                     && matches!(
                         p.threads[t][s.th[t].pc].k,
-                        K::NWait { .. } | K::NWaitUntil { .. } | K::ParkUntil { .. } | K::CvWaitUntil { .. } | K::Wait { .. } | K::Yield | K::Await { .. } | K::AwaitSpun { .. }
+                        K::NWait { .. } | K::NWaitUntil { .. } | K::ParkUntil { .. } | K::CvWaitUntil { .. } | K::Wait { .. } | K::Yield | K::Await { .. } | K::AwaitSpun { .. } | K::Await2 { .. }
                     );
                 if more && !inside && !yield_pending[t] {
                     let enabled = s.succ(p, t, mode).iter().any(|(n, _)| !n.via_spurious);
@@ -1499,7 +1499,7 @@ fn eval_c19(job: &Job) -> JobResult {
     // programs with non-SeqCst accesses have outcomes the SC machine does not produce: their
     // restricted runs are compared with the unrestricted loom run only
     let weak = p.threads.iter().flatten().any(|o| match o.k {
-        K::Load { mo, .. } | K::Store { mo, .. } | K::Swap { mo, .. } | K::FetchAdd { mo, .. } | K::Await { mo, .. } | K::AwaitSpun { mo, .. } | K::NWaitUntil { mo, .. } => mo != MO::Sc,
+        K::Load { mo, .. } | K::Store { mo, .. } | K::Swap { mo, .. } | K::FetchAdd { mo, .. } | K::Await { mo, .. } | K::AwaitSpun { mo, .. } | K::Await2 { mo, .. } | K::NWaitUntil { mo, .. } => mo != MO::Sc,
         K::Cas { s, f, .. } => s != MO::Sc || f != MO::Sc,
         _ => false,
     });
@@ -1809,6 +1809,31 @@ fn eval_c19(job: &Job) -> JobResult {
             let ok = s2.verdict == Verdict::Ok && if d == 0 { it <= c.min(n) && it >= n.min(c - 1) } else { it == n && r2.outcomes == full.outcomes };
             if !ok {
                 push(&mut res, "max_duration", format!("duration={}s interval={} N={}", d, c, n), "0 s ends at the first checkpoint boundary without a failure; 1 h changes nothing", format!("{} after {} iterations", s2.verdict.short(), it));
+            } else {
+                res.traces_validated += 1;
+            }
+        }
+    }
+    // (f) both limits at once: whichever is reached first ends the run
+    for c in [1usize, 3] {
+        for (m, d) in [(1_000_000usize, 0u64), (2usize, 3600u64)] {
+            let mut c2 = cfg.clone();
+            c2.max_permutations = Some(m);
+            c2.max_duration_s = Some(d);
+            c2.checkpoint_interval = Some(c);
+            let (s2, r2) = run_ctl(p, &c2);
+            variants += 1;
+            res.loom_iterations += r2.iters;
+            let it = r2.iters as usize;
+            let ok = s2.verdict == Verdict::Ok
+                && if d == 0 {
+                    it <= c.min(n) && it >= n.min(c - 1)
+                } else {
+                    let upper = ((m + c - 1) / c) * c;
+                    it <= upper.min(n) && it >= n.min(m - 1)
+                };
+            if !ok {
+                push(&mut res, "max_duration", format!("permutations={} duration={}s interval={} N={}", m, d, c, n), "the limit that is reached first ends the run at the next checkpoint boundary", format!("{} after {} iterations", s2.verdict.short(), it));
             } else {
                 res.traces_validated += 1;
             }
